@@ -32,7 +32,9 @@ partial def decGoVal (j : Json) : Except String GoVal := do
       match f.getObjVal? "v" with
       | .ok v =>
         let gv ← decGoVal v
-        pure (some (getStrD f "n", getBoolD f "embedded", gv))
+        -- an embedded struct is promoted (its fields listed in place) unless its json tag names it
+        let named := Tags.namePart (Tags.get (getStrD f "tag") "json") != ""
+        pure (some (getStrD f "n", getBoolD f "embedded" && !named, gv))
       | .error _ => pure none
     let flat := fs.filterMap id |>.flatMap fun (n, emb, gv) =>
       match emb, gv with
